@@ -882,6 +882,14 @@ class Exec:
                 if isinstance(v, Opaque): return v
                 if not (is_sym(v) and z3.is_fp(v)): raise Unsupported('FloatToFloat cast of %r' % (v,))
                 return z3.fpToFP(z3.RNE(), v, z3.Float32() if rv[2].strip() == 'f32' else z3.Float64())
+            if kind == 'FloatToInt' and isinstance(v, float):
+                # Rust `as`: saturating, NaN -> 0
+                lo, hi = INT_RANGES[rv[2].strip()]
+                if v != v: return 0
+                if v == float('inf') or v >= hi: return hi
+                if v == float('-inf') or v <= lo: return lo
+                return int(v)
+            if kind == 'IntToFloat' and isinstance(v, int) and not isinstance(v, bool): return float(v)
             raise Unsupported('cast ' + kind)
         if k == 'tuple': return Agg('tuple', 0, [s.operand(frame, x, body) for x in rv[1]])
         if k == 'array': return Agg('array', 0, [s.operand(frame, x, body) for x in rv[1]])
